@@ -12,6 +12,12 @@ class C03(ConnProp):
             "was after commit points (quick: first, last and 8 random; thorough: all; the exhaustive part of the thorough tier stops at length 5) and the position the plugin's "
             "Open receives is compared with the log prefix. distinct = distinct input JSON; non-trivial = at least "
             "one engine ack, one successful commit and one plugin ack in the log")
+    rule += (". Restart through the real services: for the cases marked full (one random case in eight, and "
+             "corpus/C03/restart_services.jsonl: every stored pipeline status x both engines) at the last and one more "
+             "commit point, in the thorough tier at every commit point of every case, fresh pipeline.Service + "
+             "connector.Service + processor.Service + lifecycle service (pkg/lifecycle or pkg/lifecycle-poc) are "
+             "initialised on a copy of the store; observed: status after pipeline Init, whether lifecycle Init started "
+             "the pipeline, Open(position) of every source, the records reaching the destination")
     assumptions = ConnProp.assumptions + [
         "crash = everything but the store is lost; a committed transaction is durable (Badger/Postgres/SQLite not modelled)",
         "crash instants are enumerated at commit granularity on the real code; instants between two commits share "
